@@ -474,9 +474,22 @@ def threadsafe_async_cache(
                         await waiter
                     except aio.CancelledError:
                         pass
+                elif waiter.cancelled() and not _cancelling():
+                    # The wait itself was cancelled and not this task,
+                    # most likely by the caching loop shutting down
+                    continue  # loop around and try again
                 raise
 
     return _wrapper  # type: ignore[return-value]
+
+
+def _cancelling() -> bool:
+    """
+    Check if the current task has a pending cancellation request.
+    Always False before Python 3.11 where this isn't tracked.
+    """
+    task = aio.current_task()
+    return bool(getattr(task, 'cancelling', int)())
 
 
 _BufferFunc = Callable[[Set[T]], Awaitable[None]]
